@@ -45,6 +45,8 @@ pub struct Stats {
     pub nt_flag: bool,
     /// largest value seen per key (deviation magnitudes etc.)
     pub maxima: BTreeMap<String, u128>,
+    /// panics of the harness's own code while judging a case (never a verdict on the property)
+    pub harness_panics: Vec<String>,
 }
 
 pub const SAMPLES_PER_CLASS: usize = 2;
@@ -134,6 +136,11 @@ impl Stats {
                 }
             }
         }
+        for p in o.harness_panics {
+            if self.harness_panics.len() < 3 {
+                self.harness_panics.push(p);
+            }
+        }
         for (k, (n, d)) in o.known {
             let e = self.known.entry(k).or_insert((0, String::new()));
             if e.0 == 0 {
@@ -151,6 +158,28 @@ pub trait Engine: Sync {
     fn strategy(&self, tier: Tier) -> BoxedStrategy<Self::Case>;
     /// Err(message) = the property is violated by this case.
     fn run(&self, case: &Self::Case, st: &mut Stats) -> Result<(), String>;
+}
+
+/// Run one case; a panic of the harness's own code (contract panics are caught where the message
+/// is executed) is recorded as an infrastructure problem and the case is skipped.
+pub fn run_guarded<E: Engine>(e: &E, case: &E::Case, st: &mut Stats) -> Result<(), String> {
+    match std::panic::catch_unwind(std::panic::AssertUnwindSafe(|| e.run(case, &mut *st))) {
+        Ok(r) => r,
+        Err(p) => {
+            let msg = if let Some(s) = p.downcast_ref::<String>() {
+                s.clone()
+            } else if let Some(s) = p.downcast_ref::<&str>() {
+                s.to_string()
+            } else {
+                "panic".to_string()
+            };
+            st.nt_flag = false;
+            if st.harness_panics.len() < 3 {
+                st.harness_panics.push(format!("engine {} panicked in its own code: {msg}; case {}", e.name(), serde_json::to_string(case).unwrap_or_default().chars().take(600).collect::<String>()));
+            }
+            Ok(())
+        }
+    }
 }
 
 pub struct Failure {
@@ -246,7 +275,7 @@ pub fn drive<E: Engine>(e: &E, prop: &str, tier: Tier, cases: u64, seed: u64) ->
                     if !st.frozen {
                         st.evaluations += 1;
                     }
-                    match e.run(&case, &mut st) {
+                    match run_guarded(e, &case, &mut st) {
                         Ok(()) => {
                             st.commit_case(&case);
                             Ok(())
@@ -283,7 +312,7 @@ pub fn drive<E: Engine>(e: &E, prop: &str, tier: Tier, cases: u64, seed: u64) ->
         // re-run the shrunk case once to get its own message
         let mut tmp = Stats::default();
         tmp.frozen = true;
-        let message = match e.run(&case, &mut tmp) {
+        let message = match run_guarded(e, &case, &mut tmp) {
             Err(m) => m,
             Ok(()) => msg,
         };
@@ -334,7 +363,11 @@ pub fn write_replay(prop: &str, engine: &str, seed: u64, case: &Value, message: 
 pub fn replay_case<E: Engine>(e: &E, case: &Value) -> Result<Result<(), String>, String> {
     let c: E::Case = serde_json::from_value(case.clone()).map_err(|x| format!("bad case: {x}"))?;
     let mut st = Stats::default();
-    Ok(e.run(&c, &mut st))
+    let r = run_guarded(e, &c, &mut st);
+    if let Some(p) = st.harness_panics.first() {
+        return Err(p.clone());
+    }
+    Ok(r)
 }
 
 /// Committed regression cases: /verif/corpus/<prop>/*.json, each `{engine, case, expect}`.
@@ -522,8 +555,13 @@ impl PropReport {
         if violations > 0 {
             return 1;
         }
-        if !self.harness_errors.is_empty() {
-            for e in &self.harness_errors {
+        let mut harness_errors = self.harness_errors.clone();
+        for (_, o) in &self.engines {
+            harness_errors.extend(o.stats.harness_panics.iter().cloned());
+        }
+        let this = PropReportErrors { harness_errors };
+        if !this.harness_errors.is_empty() {
+            for e in &this.harness_errors {
                 eprintln!("INFRASTRUCTURE property={}: {e}", self.property);
             }
             return 2;
@@ -543,6 +581,10 @@ impl PropReport {
         }
         0
     }
+}
+
+struct PropReportErrors {
+    harness_errors: Vec<String>,
 }
 
 /// helper: boxed strategy from any strategy
